@@ -234,9 +234,15 @@ Definition same_identity (a b : stake_view) : bool :=
    may forfeit it) *)
 Definition stake_continuity (prev : snapshot) (b : blk) : bool :=
   let now := bonded_views (k_snap b) ++ sn_frozen (k_snap b) in
-  forallb (λ s, match find_stake_view s now with
-                | Some s' => same_identity s s' && ((sv_power s' =? sv_power s) || existsb (N.eqb (sv_to s)) (h_evidence (k_hdr b)))
-                | None => existsb (N.eqb (sv_to s)) (h_evidence (k_hdr b))
+  (* a bonded stake is found again (bonded or unbonding) with the power the evidence of the block
+     leaves it — slashing runs in BeginBlock, before anything can move the stake —, and it is in NO
+     place only if that formula forfeits it (a stake "too small to be reduced"): a stake whose power
+     was cut to 0 by a ratio of 100 is still a recorded stake *)
+  forallb (λ s, let n := count_occ_addr (sv_to s) (h_evidence (k_hdr b)) in
+                let expect := slash_powers (g_slashRatio (sn_params prev)) n [sv_power s] in
+                match find_stake_view s now with
+                | Some s' => same_identity s s' && match expect with [p] => sv_power s' =? p | _ => Nat.ltb 0 n end
+                | None => match expect with [] => true | _ => false end
                 end) (bonded_views prev)
   && forallb (λ s, if sv_refund s <=? h_height (k_hdr b)
                    then match find_stake_view s (sn_frozen (k_snap b)) with
